@@ -781,6 +781,35 @@ class CutoffPowerLawEnergyFluxProfile(
 
         return values
 
+    def get_integral(
+            self,
+            E1,
+            E2,
+            unit=None,
+    ):
+        """Computes the integral value of this energy flux profile in the range
+        ``[E1, E2]`` numerically. The analytic power-law integral of the base
+        class does not hold for this profile.
+
+        Parameters
+        ----------
+        E1 : float | 1d numpy ndarray of float
+            The lower energy bound of the integration.
+        E2 : float | 1d numpy ndarray of float
+            The upper energy bound of the integration.
+        unit : instance of astropy.units.UnitBase | None
+            The unit of the given energies.
+            If set to ``None``, the set energy unit of this EnergyFluxProfile
+            instance is assumed.
+
+        Returns
+        -------
+        integral : 1d ndarray of float
+            The integral values of the given integral ranges.
+        """
+        return EnergyFluxProfile.get_integral(
+            self, E1=E1, E2=E2, unit=unit)
+
 
 class LogParabolaPowerLawEnergyFluxProfile(
         PowerLawEnergyFluxProfile,
@@ -901,6 +930,35 @@ class LogParabolaPowerLawEnergyFluxProfile(
         )
 
         return values
+
+    def get_integral(
+            self,
+            E1,
+            E2,
+            unit=None,
+    ):
+        """Computes the integral value of this energy flux profile in the range
+        ``[E1, E2]`` numerically. The analytic power-law integral of the base
+        class does not hold for this profile.
+
+        Parameters
+        ----------
+        E1 : float | 1d numpy ndarray of float
+            The lower energy bound of the integration.
+        E2 : float | 1d numpy ndarray of float
+            The upper energy bound of the integration.
+        unit : instance of astropy.units.UnitBase | None
+            The unit of the given energies.
+            If set to ``None``, the set energy unit of this EnergyFluxProfile
+            instance is assumed.
+
+        Returns
+        -------
+        integral : 1d ndarray of float
+            The integral values of the given integral ranges.
+        """
+        return EnergyFluxProfile.get_integral(
+            self, E1=E1, E2=E2, unit=unit)
 
 
 class PhotosplineEnergyFluxProfile(
